@@ -395,7 +395,7 @@ def run(tier, seed, jobs, deadline, report):
     # two real importers at once: every interleaving of their file operations with at most `bound` preemptions
     bound = 3 if tier == "thorough" else 2
     two = two_importers([("missing", {}), ("truncated", {CACHE: complete[:N // 2]})] + ([("empty", {CACHE: b""})] if tier == "thorough" else []),
-                        bound, jobs, ref, t0 + deadline)
+                        bound, jobs, ref, max(t0 + deadline, time.time() + (1800 if tier == "thorough" else 240)))   # its own floor: the byte cuts before it must not starve it
     if not two["complete"]:
         report.exhaustive = False
         report.notes.append("deadline hit in the two-importer exploration after %d schedules" % two["schedules"])
